@@ -223,7 +223,7 @@ fn partition_sample_body<const N: usize, const K: usize, const M: usize, const L
 // symbolic construction exceeds the memory cap, measured):
 //   * construction from symbolic stakes, checked on the constructed state (`fa1w_new_body`),
 //   * `sample_quorum` from a symbolic state with `R` deterministic seats (`fa1_sample_body`).
-// `new_with_partition_fallback` runs `PartitionSampler::new` and does not fit (see above).
+// `new_with_partition_fallback` runs `PartitionSampler::new`, which does not fit (see above): cut by a stub in fa1p_new_body.
 
 /// FA1 with the IID stake-weighted fallback: constructed state.
 ///
@@ -273,6 +273,108 @@ fn fa1w_new_body<const N: usize, const K: usize>() {
         i += 1;
     }
     vcheck!(fb.stake_index.total_weight() == wsum && wsum > 0, "fallback weight index differs from the fallback stakes");
+    vcover!(fsum > 0 && (fsum as usize) < K, "deterministic and sampled seats both present");
+    vcover!(N > K || fsum as usize == K, "all seats deterministic");
+    std::mem::forget(s);
+}
+
+/// FA1 with the partition fallback: the seat computation of `new_with_partition_fallback`.
+///
+/// `PartitionSampler::new` itself does not fit (and consults the ambient generator: C16's
+/// finding); under Kani it is cut by a stub that records what it is handed - the validator list
+/// with the residual stakes and the number of remaining seats - and returns an empty sampler.
+/// Natively the real constructor runs and the owners of the deterministic seats are read back.
+#[cfg(kani)]
+pub(crate) mod cut {
+    use super::*;
+    struct Ghost {
+        magic: [u64; 2],
+        calls: usize,
+        bins: usize,
+        n: usize,
+        stakes: [u64; 4],
+        ids_in_order: bool,
+    }
+    static mut G: Ghost = Ghost { magic: [0xC17_FA1B_0000_0001, 0x9E37_79B9_7F4A_7C15], calls: 0, bins: 0, n: 0, stakes: [0; 4], ids_in_order: true };
+    pub(crate) fn calls() -> usize {
+        unsafe { G.calls }
+    }
+    pub(crate) fn bins() -> usize {
+        unsafe { G.bins }
+    }
+    pub(crate) fn n() -> usize {
+        unsafe { G.n }
+    }
+    pub(crate) fn stake(i: usize) -> u64 {
+        unsafe { G.stakes[i] }
+    }
+    pub(crate) fn ids_in_order() -> bool {
+        unsafe { G.ids_in_order }
+    }
+    pub(crate) fn partition_new(validators: Vec<ValidatorInfo>, num_bins: usize) -> PartitionSampler {
+        unsafe {
+            G.calls += 1;
+            G.bins = num_bins;
+            G.n = validators.len();
+            let mut i = 0;
+            while i < validators.len() && i < 4 {
+                G.stakes[i] = validators[i].stake.inner();
+                G.ids_in_order &= validators[i].id.as_usize() == i;
+                i += 1;
+            }
+        }
+        std::mem::forget(validators);
+        PartitionSampler { bins: Vec::new(), bin_validators: Vec::new(), bin_stakes: Vec::new() }
+    }
+}
+
+fn fa1p_new_body<const N: usize, const K: usize>() {
+    let stakes = any_stakes::<N>(1, 8);
+    let st: [u16; N] = std::array::from_fn(|i| stakes[i] as u16);
+    let k = K as u16;
+    let mut t = 0u16;
+    let mut i = 0;
+    while i < N {
+        t += st[i];
+        i += 1;
+    }
+    vs::assume(t >= k);
+    let s = FaitAccompli1Sampler::new_with_partition_fallback(validators(&stakes), K as u64);
+    vcheck!(s.quorum_size() == K, "quorum_size differs from the configured size");
+    let mut fsum = 0u16;
+    let mut rsum = 0u16;
+    let mut i = 0;
+    while i < N {
+        let fl = st[i] * k / t;
+        fsum += fl;
+        rsum += st[i] - fl * t / k;
+        i += 1;
+    }
+    vcheck!(s.required_samples.len() == fsum as usize, "number of deterministic seats differs from the sum of floor(stake fraction * k)");
+    #[cfg(kani)]
+    {
+        vcheck!(cut::calls() == 1 && cut::bins() == K - fsum as usize, "fallback size is not the number of remaining seats");
+        vcheck!(cut::n() == N && cut::ids_in_order(), "fallback sampler lost or reordered validators");
+        let mut i = 0;
+        while i < N {
+            let fl = st[i] * k / t;
+            let residual = st[i] - fl * t / k;
+            let expect = if rsum == 0 { st[i] } else { residual };
+            vcheck!(cut::stake(i) == expect as u64, "fallback weight differs from stake - floor(stake fraction * k) * total / k");
+            i += 1;
+        }
+    }
+    #[cfg(not(kani))]
+    {
+        vcheck!(s.fallback_sampler.quorum_size() == K - fsum as usize, "fallback size is not the number of remaining seats");
+        let mut i = 0;
+        while i < N {
+            let fl = (st[i] * k / t) as usize;
+            let got = s.required_samples.iter().filter(|v| v.as_usize() == i).count();
+            vcheck!(got == fl, "a validator's deterministic seats differ from floor(stake fraction * k)");
+            i += 1;
+        }
+    }
     vcover!(fsum > 0 && (fsum as usize) < K, "deterministic and sampled seats both present");
     vcover!(N > K || fsum as usize == K, "all seats deterministic");
     std::mem::forget(s);
@@ -481,6 +583,21 @@ h!(c17_fa1w_new_n2_k2, 6, fa1w_new_body::<2, 2>);
 h!(c17_fa1w_new_n3_k2, 6, fa1w_new_body::<3, 2>);
 h!(c17_fa1w_new_n3_k3, 6, fa1w_new_body::<3, 3>);
 h!(c17_fa1w_new_n3_k4, 7, fa1w_new_body::<3, 4>);
+
+macro_rules! hp {
+    ($name:ident, $unwind:literal, $body:ident :: < $($g:literal),* >) => {
+        #[cfg_attr(kani, kani::proof)]
+        #[cfg_attr(kani, kani::stub(crate::disseminator::rotor::sampling_strategy::PartitionSampler::new, crate::disseminator::rotor::sampling_strategy::kani_c17::cut::partition_new))]
+        #[cfg_attr(kani, kani::unwind($unwind))]
+        #[cfg_attr(verif_replay, test)]
+        fn $name() {
+            $body::<$($g),*>()
+        }
+    };
+}
+hp!(c17_fa1p_new_n2_k2, 6, fa1p_new_body::<2, 2>);
+hp!(c17_fa1p_new_n2_k3, 6, fa1p_new_body::<2, 3>);
+hp!(c17_fa1p_new_n3_k3, 6, fa1p_new_body::<3, 3>);
 h!(c17_fa1_sample_k2_r0, 5, fa1_sample_body::<3, 2, 0, 3>);
 h!(c17_fa1_sample_k2_r1, 5, fa1_sample_body::<3, 2, 1, 2>);
 h!(c17_fa1_sample_k2_r2, 5, fa1_sample_body::<3, 2, 2, 1>);
